@@ -327,6 +327,7 @@ pub fn run(ctx: &Ctx) -> PropResult {
         judge_date(rec, day, op, n);
     }));
     wls.push(Workload::cases("offset_local_twins", ctx.count(4_000, 150_000), |rec, _, rng| super::localzone::twin_case(rec, rng, "C05", super::walk::Family::Months)));
+    wls.push(Workload::cases("date_api_walks", ctx.count(20_000, 800_000), |rec, _, rng| super::walk::walk_date(rec, rng, "C05", super::walk::Family::Months)));
     wls.push(Workload::cases("api_walks", ctx.count(30_000, 1_500_000), |rec, _, rng| super::walk::walk(rec, rng, "C05", super::walk::Family::Months)));
     let out = run_workloads(ctx, wls);
     let mut meta = PropMeta::default();
@@ -336,6 +337,7 @@ pub fn run(ctx: &Ctx) -> PropResult {
         if quick { ", quick: days with dom < 28 thinned 6x" } else { "" }
     );
     meta.required_bins = vec![
+        "date-walk/with-judged-steps",
         "sequence/sibling-calls",
         "local-twin/judged", "local-twin/synthetic-fixed-zone", "local-twin/real-zone-with-transitions",
         "clamp/none", "clamp/to28", "clamp/to29", "clamp/to30", "unrepresentable", "cross/BC→AD", "cross/AD→BC", "cross/none-BC", "cross/none-AD",
